@@ -83,7 +83,12 @@
         the real dumps: a pending job that is eligible by the numbers, none of
         whose OWN evictions was refused, for which an eligible victim is still
         available (on a node without refused evictions, not evicted for a job
-        popped before it), and that was not served is a violation. *)
+        popped before it), and that was not served is a violation.
+      The same for the preempt action ([p_kind = 2]: clusters with at least two
+      eligible preemptors, pending jobs of higher priority in queues that run
+      lower-priority preemptible pods on at least two nodes; model:
+      [preempt_action_f]; monitor: [preempt_expected] plus a victim of the job's
+      own queue still available; clause of C05_preempt_progress_under_evict_faults). *)
 From KaiV Require Export Run.Cycle Model.Progress Model.Signatures Model.ProgressTree Model.ProgressFaults Model.ReclaimFaults.
 From KaiV Require Model.Capacity.
 From Coq Require Import QArith.
@@ -639,8 +644,12 @@ Definition rfc_oracle (k : rfcase) : eoracle :=
 
 Definition rfault_run (k : rfcase) : rfstate :=
   let c := rfc_p k in
-  reclaim_action_f (fun _ _ => true) m_true3 (m_valid c) m_ahead (p_sigs c) m_pending (m_can_reclaim c) true (rfc_oracle k)
-                   (mkVS (p_units c) (p_running c) []) (p_pending c).
+  match p_kind c with
+  | 1%nat => reclaim_action_f (fun _ _ => true) m_true3 (m_valid c) m_ahead (p_sigs c) m_pending (m_can_reclaim c) true (rfc_oracle k)
+                              (mkVS (p_units c) (p_running c) []) (p_pending c)
+  | _ => preempt_action_f (fun _ _ => true) m_true3 m_true3 m_ahead (p_sigs c) m_pending (m_np_gate c) true (rfc_oracle k)
+                          (mkVS (p_units c) (p_running c) []) (p_pending c)
+  end.
 
 Definition ecall_evict (c : ecall) : list evobs :=
   match c with
@@ -714,9 +723,24 @@ Definition reclaim_expected_f (k : rfcase) (i : nat) (p : pjob) : bool :=
                        || (zcount (fun v => Pos.eqb (rj_queue v) (pq_id q)) (p_running c) =? 0)
                        || victim_level_above qs (pj_queue p) (pq_id q) taken) qs.
 
+(** preempt: [preempt_expected] plus a victim of the job's own queue (preemptible, strictly lower
+    priority) that is still available: on a node without refused evictions, not evicted for a job
+    popped earlier *)
+Definition pf_available (k : rfcase) (i : nat) (p : pjob) (v : rjob) : bool :=
+  Pos.eqb (rj_queue v) (pj_queue p) && rj_preempt v && (rj_prio v <? pj_prio p) && negb (rf_dirty_node k (rj_node v))
+  && negb (existsb (fun e => eo_ok e && Pos.eqb (eo_victim e) (rj_id v) && rf_popped_before k i (eo_preemptor e)) (rfc_evicts k)).
+Definition preempt_expected_f (k : rfcase) (i : nat) (p : pjob) : bool :=
+  preempt_expected (rfc_p k) i p && existsb (pf_available k i p) (p_running (rfc_p k)).
+Definition expected_f (k : rfcase) (i : nat) (p : pjob) : bool :=
+  match p_kind (rfc_p k) with
+  | 1%nat => reclaim_expected_f k i p
+  | 2%nat => preempt_expected_f k i p
+  | _ => false
+  end.
+
 (** eligible, none of its own evictions refused, a victim still available, yet not served *)
 Definition rfault_progress_ok (k : rfcase) : bool :=
-  forallb (fun ip => negb (reclaim_expected_f k (fst ip) (snd ip))
+  forallb (fun ip => negb (expected_f k (fst ip) (snd ip))
                      || rf_refused_for k (snd ip)
                      || served (rfc_p k) (snd ip)) (indexed 0 (p_pending (rfc_p k))).
 
